@@ -18,6 +18,7 @@ package fieldmask
 
 import (
 	"encoding/json"
+	"errors"
 	"fmt"
 	"io"
 	"math"
@@ -91,9 +92,10 @@ func (v pathValue) Int() int {
 	return v.iv
 }
 
+// Int32 returns the value as a field id; an id that does not fit names no field (math.MinInt32).
 func (v pathValue) Int32() int32 {
 	if v.iv > math.MaxInt32 || v.iv < math.MinInt32 {
-		panic("integer overflow")
+		return math.MinInt32
 	}
 	return int32(v.iv)
 }
@@ -116,6 +118,8 @@ func (p pathToken) Err() error {
 	switch p.typ {
 	case pathTypeEOF:
 		return io.EOF
+	case pathTypeERR:
+		return errors.New(p.val.Str())
 	default:
 		return nil
 	}
@@ -160,12 +164,12 @@ func newPathToken(typ pathType, val string, s, e int) pathToken {
 	switch typ {
 	case pathTypeEOF:
 		return pathToken{typ: typ}
-	case pathTypeStr, pathTypeAny, pathTypeElem, pathTypeField, pathTypeIndexL, pathTypeIndexR, pathTypeLitStr, pathTypeMapR, pathTypeMapL, pathTypeRoot:
+	case pathTypeStr, pathTypeAny, pathTypeElem, pathTypeField, pathTypeIndexL, pathTypeIndexR, pathTypeLitStr, pathTypeMapR, pathTypeMapL, pathTypeRoot, pathTypeERR:
 		return pathToken{typ: typ, val: newPathValueStr(val), loc: [2]int{s, e}}
 	case pathTypeLitInt:
 		i, err := strconv.Atoi(val)
 		if err != nil {
-			panic(err)
+			return pathToken{typ: pathTypeERR, val: newPathValueStr("invalid integer " + val), loc: [2]int{s, e}}
 		}
 		return pathToken{typ: typ, val: newPathValueInt(i), loc: [2]int{s, e}}
 	default:
@@ -286,6 +290,9 @@ func (p *pathIterator) str() (string, error) {
 		}
 	}
 ret:
+	if i > len(p.src) {
+		i = len(p.src) // a backslash was the last character
+	}
 	val := p.src[p.pos:i]
 	p.pos = i
 	val, err := strconv.Unquote(val)
@@ -315,6 +322,11 @@ func (cur *FieldMask) GetPath(desc *thrift_reflection.TypeDescriptor, path strin
 			return last, true
 		}
 		last = cur
+
+		// a typedef of a container or struct has to be looked through, as addPath does
+		if desc = unwrapDesc(desc); desc == nil {
+			return nil, false
+		}
 
 		stok := it.Next()
 		if stok.Err() != nil {
@@ -361,6 +373,8 @@ func (cur *FieldMask) GetPath(desc *thrift_reflection.TypeDescriptor, path strin
 				if !cur.All() {
 					return nil, false
 				}
+				// '*' names no single field (f is nil): the path is in the mask
+				return cur, true
 			} else {
 				return nil, false
 			}
